@@ -135,6 +135,26 @@ func newCPUModel(ctx *Ctx, rel string) *CPUModel {
 			}
 		}
 	}
+	// ... and the constants any function of the package stores into it (a Step that dispatches pending
+	// interrupts through a table compares the field with nothing)
+	if fi >= 0 {
+		for _, fn := range ctx.Prog.AllFuncs() {
+			if fn.Pkg != step.Pkg || fn == step {
+				continue
+			}
+			for _, b := range fn.Blocks {
+				for _, in := range b.Instrs {
+					if x, ok := in.(*ssa.Store); ok {
+						if fa, ok := x.Addr.(*ssa.FieldAddr); ok && fa.Field == fi && types.Identical(fa.X.Type(), types.NewPointer(named)) {
+							if c, ok := x.Val.(*ssa.Const); ok && int(c.Int64()) != stored {
+								seen[int(c.Int64())] = true
+							}
+						}
+					}
+				}
+			}
+		}
+	}
 	for v := range seen {
 		m.IntrVals = append(m.IntrVals, v)
 	}
